@@ -41,13 +41,16 @@ type apiCall struct {
 // runRace is the body of the child process built with -race. Data-race reports and runtime fatal errors go to
 // stderr and are turned into race / fatal events by checks/c07.py. The response events are written BEFORE the
 // ingest phase (a "concurrent map" fatal error kills the process).
-func runRace(root, work, out string, seed int64, thorough bool, n int, statsFile string) error {
+func runRace(root, work, out string, seed int64, thorough bool, n int, statsFile, phases string) error {
 	if root == "" {
 		return fmt.Errorf("-vod required")
 	}
 	rc := newRecorder()
 	rng := rand.New(rand.NewSource(seed))
 	target := n / 4
+	if phases == "ingest" {
+		target = 40
+	}
 	// all instances are created before any concurrency starts (SetupServer itself is not claimed to be re-entrant)
 	disc, err := newInst(root, false, "", false)
 	if err != nil {
@@ -69,26 +72,33 @@ func runRace(root, work, out string, seed int64, thorough bool, n int, statsFile
 	// ---- phase 1: 32-way concurrent mix of the pool (twice) + aux pages on the long-running instance
 	mix := append(perm(rng, pool), perm(rng, pool)...)
 	var wg sync.WaitGroup
-	var stopAux atomic.Bool
-	var nAux atomic.Int64
+	var stopAux atomic.Bool // only ever loaded by the workers before the store: creates no order between them
+	auxLocal := make([]*recorder, 4)
+	auxCount := make([]int64, 4)
 	for g := 0; g < 4; g++ {
 		wg.Add(1)
+		auxLocal[g] = newRecorder()
 		us := auxURLs(rand.New(rand.NewSource(seed*100 + int64(g))))
-		go func() {
+		go func(g int) {
 			defer wg.Done()
 			for i := 0; !stopAux.Load(); i++ {
 				u := us[i%len(us)]
 				r := long.Get(u)
-				nAux.Add(1)
+				auxCount[g]++
 				if i < len(us) {
-					rc.aux(tr.E{"what": "page", "url": u, "st": r.Status})
+					auxLocal[g].aux(tr.E{"what": "page", "url": u, "st": r.Status})
 				}
 			}
-		}()
+		}(g)
 	}
 	serveConc(rc, long, "race-long", "conc", mix, 28)
 	stopAux.Store(true)
 	wg.Wait()
+	var nAux int64
+	for g := range auxLocal {
+		rc.merge(auxLocal[g])
+		nAux += auxCount[g]
+	}
 	// ---- phase 2: a fresh instance serves concurrently from its very first request
 	serveConc(rc, fresh, "race-fresh", "conc", perm(rng, pool), 32)
 	fresh.Cancel()
@@ -100,7 +110,7 @@ func runRace(root, work, out string, seed int64, thorough bool, n int, statsFile
 		return err
 	}
 	st := map[string]any{"scenarios": 3, "events": events, "responses": nresp, "distinct": len(pool), "pool": len(pool), "pool_by_kind": ps.ByKind,
-		"aux_requests": nAux.Load(), "status_by_kind": statusTable(rc), "samples": []any{}, "ingest": "not reached"}
+		"aux_requests": nAux, "status_by_kind": statusTable(rc), "samples": []any{}, "ingest": "not reached"}
 	writeStats(statsFile, st)
 
 	// ---- phase 4: ingest API (create / get / step / delete) from independent goroutines, while media requests go on
@@ -136,66 +146,75 @@ func apiDo(s *srv.S, method, url string, body any, bound time.Duration) (code in
 	}
 }
 
-// runIngest exercises the session manager. No synchronisation of the harness orders a handler that writes the
-// manager's tables before a handler that reads them: creators and pollers only share atomics that are written
-// AFTER the respective API call returned, pollers guess the (sequential) ids.
+// tally is a goroutine-local result table (merged after the join: no lock shared by the API goroutines).
+type tally map[string]int
+
+func (t tally) note(op string, code int, ok bool) {
+	if !ok {
+		t[op+":stuck"]++
+	} else {
+		t[op+":"+strconv.Itoa(code)]++
+	}
+}
+
+// runIngest exercises the session manager. The harness adds no synchronisation that would order a handler that
+// writes the manager's tables / a session goroutine that writes state and report before a handler that reads
+// them: creators, pollers and steppers keep goroutine-local tallies, pollers GUESS the (sequential) ids, the stop
+// flag is only stored after everything else is done. (The detector is happens-before based: what is left to
+// chance is the synchronisation inside the server itself - sync.Pool, request id counter - which is why the
+// numbers of sessions and pollers are what they are.)
 func runIngest(s *srv.S, rng *rand.Rand, thorough bool) map[string]any {
 	recv := httptest.NewServer(http.HandlerFunc(func(w http.ResponseWriter, r *http.Request) {
 		_, _ = io.Copy(io.Discard, r.Body)
 		w.WriteHeader(200)
 	}))
 	defer recv.Close()
-	nSess, nCreators, nPollers, steps := 6, 3, 3, 2
+	nSess, nCreators, nPollers, steps := 48, 4, 6, 2
 	if thorough {
-		nSess, nCreators, nPollers, steps = 24, 4, 4, 3
+		nSess, nCreators, nPollers, steps = 240, 6, 8, 3
 	}
 	bound := 20 * time.Second
-	var mu sync.Mutex
-	counts := map[string]int{}
-	stuck := 0
-	note := func(op string, code int, ok bool) {
-		mu.Lock()
-		if !ok {
-			stuck++
-			counts[op+":stuck"]++
-		} else {
-			counts[op+":"+strconv.Itoa(code)]++
-		}
-		mu.Unlock()
-	}
-	var created atomic.Int64
 	var stop atomic.Bool
 	var bg sync.WaitGroup
+	nBg := nPollers + 2
+	bgT := make([]tally, nBg)
 	// pollers: GET info of guessed ids all the time (ids are 1, 2, 3, ...)
 	for p := 0; p < nPollers; p++ {
 		bg.Add(1)
+		bgT[p] = tally{}
 		go func(p int) {
 			defer bg.Done()
 			for i := 0; !stop.Load(); i++ {
-				id := strconv.Itoa(1 + (i+p)%(nSess+1))
+				id := strconv.Itoa(1 + (i*7+p)%(nSess+1))
 				code, _, ok := apiDo(s, "GET", "/api/cmaf-ingests/"+id, nil, bound)
-				note("get", code, ok)
+				bgT[p].note("get", code, ok)
 			}
 		}(p)
 	}
 	// media / MPD requests keep being served meanwhile (the session goroutines use the same asset tables)
 	for g := 0; g < 2; g++ {
 		bg.Add(1)
+		bgT[nPollers+g] = tally{}
 		go func(g int) {
 			defer bg.Done()
 			for i := 0; !stop.Load(); i++ {
 				now := 1_700_000_000_000 + int64(i%50)*2000
 				s.Get("/livesim2/testpic_2s/Manifest.mpd?nowMS=" + strconv.FormatInt(now, 10))
 				s.Get("/livesim2/testpic_2s/V300/" + strconv.FormatInt(now/2000-3, 10) + ".m4s?nowMS=" + strconv.FormatInt(now, 10))
+				bgT[nPollers+g]["media"] += 2
 			}
 		}(g)
 	}
 	urls := []string{"/livesim2/testpic_2s/Manifest.mpd", "/livesim2/segtimeline_1/testpic_2s/Manifest.mpd",
 		"/livesim2/timesubsstpp_en/testpic_2s/Manifest.mpd", "/livesim2/segtimelinenr_1/testpic_8s/Manifest.mpd"}
+	// every session has its own life-cycle goroutine, started by its creator: step, read, delete (twice), read
 	var cw sync.WaitGroup
-	ids := make(chan string, nSess)
+	crT := make([]tally, nCreators)
+	lifeT := make([]tally, nSess)
+	var lw sync.WaitGroup
 	for c := 0; c < nCreators; c++ {
 		cw.Add(1)
+		crT[c] = tally{}
 		go func(c int) {
 			defer cw.Done()
 			for k := c; k < nSess; k += nCreators {
@@ -203,47 +222,64 @@ func runIngest(s *srv.S, rng *rand.Rand, thorough bool) map[string]any {
 				setup := map[string]any{"destRoot": recv.URL, "destName": "s" + strconv.Itoa(k), "livesimURL": urls[k%len(urls)],
 					"testNowMS": now, "streamsURLs": k%2 == 1}
 				code, body, ok := apiDo(s, "POST", "/api/cmaf-ingests", setup, bound)
-				note("create", code, ok)
+				crT[c].note("create", code, ok)
 				var cr struct {
 					ID string `json:"id"`
 				}
 				_ = json.Unmarshal(body, &cr)
-				if ok && code == 201 && cr.ID != "" {
-					created.Add(1)
-					ids <- cr.ID
+				if !(ok && code == 201 && cr.ID != "") {
+					continue
 				}
+				crT[c]["sessions_created"]++
+				lifeT[k] = tally{}
+				lw.Add(1)
+				go func(k int, id string) {
+					defer lw.Done()
+					t := lifeT[k]
+					alive := true
+					for j := 0; j < steps && alive; j++ {
+						code, _, ok := apiDo(s, "GET", "/api/cmaf-ingests/"+id+"/step", nil, bound)
+						t.note("step", code, ok)
+						alive = ok && code == 200
+						code, _, ok = apiDo(s, "GET", "/api/cmaf-ingests/"+id, nil, bound)
+						t.note("get", code, ok)
+					}
+					code, _, ok := apiDo(s, "DELETE", "/api/cmaf-ingests/"+id, nil, bound)
+					t.note("delete", code, ok)
+					// a second DELETE reads the session's state while its goroutine winds up
+					code, _, ok = apiDo(s, "DELETE", "/api/cmaf-ingests/"+id, nil, bound)
+					t.note("delete", code, ok)
+					code, _, ok = apiDo(s, "GET", "/api/cmaf-ingests/"+id, nil, bound)
+					t.note("get", code, ok)
+				}(k, cr.ID)
 			}
 		}(c)
 	}
-	// steppers start as soon as an id is known; every session is stepped, read and finally deleted
-	var sw sync.WaitGroup
-	go func() { cw.Wait(); close(ids) }()
-	for id := range ids {
-		sw.Add(1)
-		go func(id string) {
-			defer sw.Done()
-			alive := true
-			for j := 0; j < steps && alive; j++ {
-				code, _, ok := apiDo(s, "GET", "/api/cmaf-ingests/"+id+"/step", nil, bound)
-				note("step", code, ok)
-				alive = ok && code == 200
-				code, _, ok = apiDo(s, "GET", "/api/cmaf-ingests/"+id, nil, bound)
-				note("get", code, ok)
-			}
-			code, _, ok := apiDo(s, "DELETE", "/api/cmaf-ingests/"+id, nil, bound)
-			note("delete", code, ok)
-			time.Sleep(20 * time.Millisecond) // the session goroutine stops (state, report) while the pollers read
-			code, _, ok = apiDo(s, "GET", "/api/cmaf-ingests/"+id, nil, bound)
-			note("get", code, ok)
-		}(id)
-	}
-	sw.Wait()
+	cw.Wait()
+	lw.Wait()
 	time.Sleep(50 * time.Millisecond)
 	stop.Store(true)
 	bg.Wait()
-	res := map[string]any{"sessions_created": created.Load(), "stuck_calls": stuck}
-	for k, v := range counts {
-		res[k] = v
+	res := map[string]any{}
+	sum := func(t tally) {
+		for k, v := range t {
+			if cur, ok := res[k].(int); ok {
+				res[k] = cur + v
+			} else {
+				res[k] = v
+			}
+		}
+	}
+	for _, t := range bgT {
+		sum(t)
+	}
+	for _, t := range crT {
+		sum(t)
+	}
+	for _, t := range lifeT {
+		if t != nil {
+			sum(t)
+		}
 	}
 	_ = rng
 	return res
